@@ -168,7 +168,35 @@ func genDotenv() (string, string) {
 		r := rune(cp)
 		fmt.Fprintf(&b, "(%d, %v, %v)", cp, unicode.IsSpace(r), unicode.IsLetter(r) || unicode.IsNumber(r))
 	}
-	b.WriteString("]\n\nend CV.Gen\n")
+	b.WriteString("]\n\n")
+	// bodies of the modelled functions (comments and layout removed): any textual edit breaks `modelled_functions_are_source`
+	gf := parse("dotenv/godotenv.go")
+	ef := parse("dotenv/env.go")
+	b.WriteString("/-- source text of every function the C18 model mirrors -/\n")
+	for _, fb := range []struct {
+		name string
+		file *ast.File
+		recv string
+		fn   string
+	}{
+		{"parse", f, "parser", "parse"},
+		{"getStatementStart", f, "parser", "getStatementStart"},
+		{"locateKeyName", f, "parser", "locateKeyName"},
+		{"extractVarValue", f, "parser", "extractVarValue"},
+		{"expandEscapes", f, "", "expandEscapes"},
+		{"indexOfNonSpaceChar", f, "parser", "indexOfNonSpaceChar"},
+		{"hasQuotePrefix", f, "", "hasQuotePrefix"},
+		{"isSpace", f, "", "isSpace"},
+		{"expandVariables", gf, "", "expandVariables"},
+		{"UnmarshalWithLookup", gf, "", "UnmarshalWithLookup"},
+		{"ParseWithLookup", gf, "", "ParseWithLookup"},
+		{"ReadWithLookup", gf, "", "ReadWithLookup"},
+		{"GetEnvFromFile", ef, "", "GetEnvFromFile"},
+	} {
+		fmt.Fprintf(&b, "def dotenv_body_%s : String := %s\n", fb.name, leanStr(funcBody(fb.file, fb.recv, fb.fn)))
+	}
+	fmt.Fprintf(&b, "def dotenv_startsWithDigitRegex : String := %s\n", leanStr(regexVar(gf, "startsWithDigitRegex")))
+	b.WriteString("\nend CV.Gen\n")
 	fmt.Fprintf(logw, "dotenv consts: isSpace %d runes, key switch %d case lists\n", len(flat), len(lk))
 	return "Dotenv.lean", b.String()
 }
